@@ -78,3 +78,76 @@ def ClosedV (V : SchemaDef Unit) : Prop :=
   ∧ (∀ dd ∈ V.directives, ∀ a ∈ dd.args, a.type.ref.leaf ∈ V.types.map (·.name))
 
 end ApiFu.C10
+
+namespace ApiFu.C10
+
+/-! ### What a definition rebuilt from introspection data carries
+
+  `forgetDef V` is the visible schema `V` with everything introspection data (as decoded into
+  `introspection.SchemaData`) cannot carry removed:
+    * default values of arguments, input fields and directive arguments (`InputValueData` has no
+      `defaultValue` member — finding F-10a);
+    * required features (of types and fields) and applied directives;
+    * the Go values of enum values, all callbacks (not represented in the model at all);
+    * the original `AdditionalTypes` (replaced by: the objects that implement an interface);
+    * built-in scalars are the package singletons again.
+  Identities: every allocated container is `some 0`, nil containers are `none`, as
+  `GetSchemaDefinition` allocates them. -/
+
+def forgetIV (a : InputValueDef Unit) : InputValueDef Id :=
+  { name := a.name, description := a.description, self := alloc, type := typeAtOf a.type.ref,
+    default := none, dirs := nilDirs }
+
+def forgetIV0 (a : InputValueDef0 Unit) : InputValueDef0 Id :=
+  { name := a.name, description := a.description, self := alloc, type := typeAtOf a.type.ref, default := none }
+
+def forgetField (f : FieldDef Unit) : FieldDef Id :=
+  { name := f.name, description := f.description, self := alloc, type := typeAtOf f.type.ref,
+    argsId := alloc, args := f.args.map forgetIV, deprecation := f.deprecation, feat := nilFeat, dirs := nilDirs }
+
+def forgetEnumValue (v : EnumValueDef Unit) : EnumValueDef Id :=
+  { name := v.name, description := v.description, self := alloc, deprecation := v.deprecation, dirs := nilDirs }
+
+/-- The shell every rebuilt type starts from (all containers nil). -/
+def shellType (t : TypeDef Unit) : TypeDef Id := { (builtinType t.name) with description := t.description }
+
+def forgetObject (t : TypeDef Unit) : TypeDef Id :=
+  { (shellType t) with kind := Kind.object, fieldsId := alloc, fields := t.fields.map forgetField,
+                       ifacesId := (if t.ifaces.isEmpty then none else alloc), ifaces := t.ifaces }
+
+def forgetInterface (t : TypeDef Unit) : TypeDef Id :=
+  { (shellType t) with kind := Kind.interface, fieldsId := alloc, fields := t.fields.map forgetField }
+
+def forgetUnion (t : TypeDef Unit) : TypeDef Id :=
+  { (shellType t) with kind := Kind.union, membersId := (if t.members.isEmpty then none else alloc), members := t.members }
+
+def forgetEnum (t : TypeDef Unit) : TypeDef Id :=
+  { (shellType t) with kind := Kind.enum, valuesId := alloc, values := t.values.map forgetEnumValue }
+
+def forgetInput (t : TypeDef Unit) : TypeDef Id :=
+  { (shellType t) with kind := Kind.inputObject, inputsId := alloc, inputs := t.inputs.map forgetIV }
+
+def forgetType (t : TypeDef Unit) : TypeDef Id :=
+  if isBuiltin t.name then builtinType t.name else
+  match t.kind with
+  | .scalar => shellType t
+  | .object => forgetObject t
+  | .interface => forgetInterface t
+  | .union => forgetUnion t
+  | .enum => forgetEnum t
+  | .inputObject => forgetInput t
+
+def forgetDirective (x : DirectiveDef Unit) : DirectiveDef Id :=
+  { name := x.name, description := x.description, self := alloc,
+    locsId := (if x.locs.isEmpty then none else alloc), locs := x.locs, argsId := alloc, args := x.args.map forgetIV0 }
+
+def sortDefs (l : List (TypeDef Unit)) : List (TypeDef Unit) := l.mergeSort (fun a b => decide (a.name ≤ b.name))
+
+def forgetDef (V : SchemaDef Unit) : GDef :=
+  let ts := (sortDefs V.types).map forgetType
+  let additional := (ts.filter (fun t => t.kind == .object && !t.ifaces.isEmpty)).map (·.name)
+  { types := ts, query := V.query, mutation := V.mutation, subscription := V.subscription,
+    additionalId := (if additional.isEmpty then none else alloc), additional := additional,
+    directivesId := alloc, directives := V.directives.map forgetDirective }
+
+end ApiFu.C10
